@@ -519,7 +519,7 @@ def rule_naming(chk, prog, tier):
                         d.obj.f[('asmname',)] = an if asm else None
                         v1 = it.call(fn, [d]); v2 = it.call(fn, [d])
                         def rd(v):
-                            return (bytes(read_cstr(it, v.obj.f[('u', 'name')])).decode(), v.obj.f[('id',)], v.obj.f[('kind',)])
+                            return (bytes(read_cstr(it, v.obj.f[('u', 'name')])).decode(), v.obj.f.get(('id',), 'indeterminate (never written)'), v.obj.f[('kind',)])
                         return rd(v1), rd(v2)
                     runs = explore(prog, runner, {'memset': None} and None, max_runs=2)
                     if len(runs) != 1 or runs[0].outcome != 'return':
